@@ -294,6 +294,21 @@ def run(ctx):
                 ctx.check(okw, "TABLE", "C12:INT:%s:%s" % (sink.split(" as ")[0].split("::")[-1], ty), "serialize_%s widens to %s and delegates" % (ty, wide),
                           "serialize_%s no longer delegates to serialize_%s through a widening cast (calls %s, casts %s)" % (ty, wide, tgt, [(c.get("from"), c.get("ty")) for c in casts]), config, ctx.where(g))
         ctx.floor("INT.methods", ni_, 20, config)
+        # -- byte arrays: the `!!binary` text is one padded standard-alphabet encoding of the whole slice (base64 groups are
+        # three bytes wide: an encoder applied to chunks whose length is not a multiple of three emits out-of-phase text)
+        sb = fx.fn("<&mut ser::YamlSerializer as serde::Serializer>::serialize_bytes")
+        ctx.saw(sb)
+        enc = [(b, t) for g in [sb] + list(fx.closures_of(sb)) for b, t in g.calls() if "base64" in fx.callee_decl(t) and "encode" in last_seg(fx.callee_decl(t))]
+        whole = []
+        for b, t in enc:
+            args = [render(sb.sym_operand(a)) for a in t["args"]]
+            whole.append(any(a.lstrip("&") == "v" for a in args))
+        inloop = [b for b, t in enc if any(b in comp for comp in sb.sccs())]
+        chunking = sorted({last_seg(fx.callee_decl(t)) for b, t in sb.calls() if last_seg(fx.callee_decl(t)) in ("chunks", "chunks_exact", "windows", "split_at", "rchunks")})
+        ctx.check(len(enc) == 1 and all(whole) and not inloop and not chunking, "TABLE", "C12:BYTES:one-encoding-of-the-whole-slice", "`!!binary` is one encoder call over the whole byte slice",
+                  "serialize_bytes encodes the payload piecewise (%d encoder call(s), in a loop: %s, chunking: %s): unless every piece is a multiple of three bytes the base64 text is out of phase and reads back as different bytes or not at all" % (len(enc), bool(inloop), chunking), config, ctx.where(sb))
+        engs = sorted({str(t["f"].get("args")) for b, t in enc})
+        ctx.check(all("NoPad" not in e and "NO_PAD" not in e for e in engs) and all("NO_PAD" not in render(sb.sym_operand(a)) for b, t in enc for a in t["args"]), "TABLE", "C12:BYTES:padded-engine", "the encoder is the padded standard engine", "serialize_bytes uses an unpadded base64 engine (the reader requires canonical padding)", config, ctx.where(sb))
         # -- line-oriented emitters: block scalar bodies
         rule_block_guard(ctx, fx, config, breaks, "C12")
 
